@@ -1,6 +1,6 @@
 #!/venv/bin/python
 """Fresh-interpreter side of C19: recompute history/statistics digests under this process' hash seed and heap layout.
-  --case FILE            one case (JSON) -> prints its digest
+  --case FILE            one case (JSON) -> prints its digest (its "prefix_cases", if any, are run first in this interpreter)
   --range PROP TIER SEED LO HI  -> prints JSON {index: digest} for generated cases
 """
 import json, os, sys
@@ -17,6 +17,8 @@ if "--garbage" in a:
 junk = [object() for _ in range(g)] + [{i: str(i)} for i in range(g // 10)]   # shifts id() values
 if "--case" in a:
     case = json.load(open(a[a.index("--case") + 1]))
+    for pc in case.pop("prefix_cases", []):        # other models run earlier in the same interpreter
+        engine_b.execute(pc)
     run, ob = engine_b.execute(case)
     fsim.say("DIGEST " + engine_b.full_digest(run))
 else:
